@@ -101,45 +101,54 @@ theorem prefix_default (o : Opts) (i : Input) (w : World) (r : Ready) (eff : Lis
     (hp : o.filePrefix = []) (h : validate o i w = .ready r eff) : r.filePrefix = baseName i.sqlitePath := by
   exact Proofs.Cli.prefix_default o i w r eff hp h
 
-/-- FULL STATEMENT (false of the code): a refused run has created nothing except possibly the log file. -/
-def RefusedBeforeWriteFull : Prop :=
-  ∀ (o : Opts) (i : Input) (w : World) (r : Refusal) (eff : List Effect),
-    validate o i w = .refuse r eff → ∀ e ∈ eff, e = .logFile o.logFile
-
-/-- witness: `-d out --exempted-tables t --no-journal db` (an option combination that can never be valid) is
-refused only after `out/` has been created -/
-theorem refused_before_write_counterexample : ¬ RefusedBeforeWriteFull := by
-  intro h
-  have := h { directory := ['o'], exemptedTables := ['t'], noJournal := true } { sqlitePath := ['d'] }
-    { pathExists := fun p => p == ['d'], size := fun _ => 100, mkdirOk := fun _ => true }
-    .exemptedNeedsJournal [.mkdir ['o']] (by decide) (.mkdir ['o']) (by decide)
-  cases this
-
-/-- PARTIAL (1): the three refusals decided from the options alone happen before anything but the log file
-exists -/
-theorem refused_before_write_partial (o : Opts) (i : Input) (w : World) (r : Refusal) (eff : List Effect)
-    (h : validate o i w = .refuse r eff) (hr : Proofs.Cli.OptionLevel r) :
+/-- a refused run — invalid option combination, missing input or journal, `--exempted-tables` without a
+rollback journal, zero-length database beside a journal with content, both journals present, or an output
+directory that cannot be created — has created nothing except possibly the log file.  The single refusal that
+is not covered is the operating system failing to create the per-file *sub*-directory (several inputs) after
+the output directory itself was made; that is not a refusal of the options or the input.
+(Before 237449d this was false: the directory was created before the input and journal checks; the former
+witness `-d out --exempted-tables t --no-journal` stays in corpus/C12.) -/
+theorem refused_before_write (o : Opts) (i : Input) (w : World) (r : Refusal) (eff : List Effect)
+    (h : validate o i w = .refuse r eff) (hr : r ≠ .cannotCreateSubDirectory) :
     ∀ e ∈ eff, e = .logFile o.logFile := by
-  exact Proofs.Cli.option_refusal_effects o i w r eff h hr
+  exact Proofs.Cli.refusal_effects o i w r eff h hr
 
-/-- PARTIAL (2): every other refusal, and every exit(0), has created at most the log file, the output
-directory and the per-file sub-directory — never an export file -/
-theorem refusal_creates_at_most_directories (o : Opts) (i : Input) (w : World) :
+/-- the same for the exit(0) outcomes ("nothing to parse") -/
+theorem exit0_before_write (o : Opts) (i : Input) (w : World) (x : Exit0) (eff : List Effect)
+    (h : validate o i w = .exit0 x eff) : ∀ e ∈ eff, e = .logFile o.logFile := by
+  exact Proofs.Cli.exit0_effects o i w x eff h
+
+/-- the excluded refusal really happens after a write (so the hypothesis of `refused_before_write` cannot be
+dropped): the output directory has been created by then -/
+theorem subdirectory_failure_is_after_mkdir (o : Opts) (i : Input) (w : World) (eff : List Effect)
+    (h : validate o i w = .refuse .cannotCreateSubDirectory eff) (hd : w.pathExists o.directory = false) :
+    Effect.mkdir o.directory ∈ eff := by
+  exact Proofs.Cli.subdirectory_failure_after_mkdir o i w eff h hd
+
+/-- every effect of every outcome of the validation phase is the log file, the output directory or the
+per-file sub-directory — never an export file -/
+theorem validation_creates_at_most_directories (o : Opts) (i : Input) (w : World) :
     ∀ e ∈ (validate o i w).effects,
       e = .logFile o.logFile ∨ (e = .mkdir o.directory ∧ w.pathExists o.directory = false)
         ∨ (e = .mkdir (Proofs.Cli.subDir o i) ∧ i.multi = true) := by
   exact Proofs.Cli.validation_effects_bounded o i w
 
-/-- PARTIAL (3): when the output directory already exists (or none is named) and one file is processed, a
-refused run has created nothing but the log file -/
-theorem refused_before_write_existing_directory (o : Opts) (i : Input) (w : World)
-    (hd : o.directory = [] ∨ w.pathExists o.directory = true) (hm : i.multi = false) :
-    ∀ e ∈ (validate o i w).effects, e = .logFile o.logFile := by
-  exact Proofs.Cli.refusal_effects_existing_directory o i w hd hm
+-- non-vacuity: the former witness is refused with nothing created; an option-level refusal with a log file;
+-- the sub-directory failure exists
+example : validate { directory := ['o'], exemptedTables := ['t'], noJournal := true } { sqlitePath := ['d'] }
+    { pathExists := fun p => p == ['d'], size := fun _ => 100, mkdirOk := fun _ => true }
+    = .refuse .exemptedNeedsJournal [] := by decide
 
--- non-vacuity: an option-level refusal with a log file
 example : validate { carveFreelists := true, logFile := ['l'] } { sqlitePath := ['d'] }
     { pathExists := fun _ => true, size := fun _ => 1, mkdirOk := fun _ => true }
     = .refuse .carveFreelistsWithoutCarve [.logFile ['l']] := by decide
+
+example : validate { directory := ['o'] } { sqlitePath := ['d'], multi := true, uuid := ['u'] }
+    { pathExists := fun p => p == ['d'], size := fun _ => 100, mkdirOk := fun p => p == ['o'] }
+    = .refuse .cannotCreateSubDirectory [.mkdir ['o']] := by decide
+
+example : validate { directory := ['o'] } { sqlitePath := ['d'] }
+    { pathExists := fun p => p == ['d'], size := fun _ => 0, mkdirOk := fun _ => true }
+    = .exit0 .emptyDb [] := by decide
 
 end SqliteDissect.Properties.C12
